@@ -208,3 +208,31 @@ def nested_saveload():
         finally:
             if os.path.exists(fn): os.unlink(fn)
     return res
+
+
+def clone_guess():
+    """C12 / C10: a template with a time-dependent guess, cloned twice with different start times.  Every clone starts from the
+    guess evaluated on *its own* time grid (the law Nlp!StartOf states for a directly declared stage: clone == direct)."""
+    from rockit import Ocp, Stage, MultipleShooting, DirectCollocation
+    res = []
+    for mk_m, tag in ((lambda: MultipleShooting(N=2, intg='rk'), 'MS'), (lambda: DirectCollocation(N=2, degree=2), 'DC')):
+        try:
+            t = Stage(t0=7.5, T=2)
+            x = t.state(); u = t.control()
+            t.set_der(x, u); t.add_objective(t.integral(u ** 2)); t.subject_to(t.at_t0(x) == 0)
+            t.set_initial(x, 3 * t.t + 1); t.set_initial(u, t.t - t.t0)
+            t.method(mk_m())
+            ocp = Ocp()
+            s1 = ocp.stage(t, t0=0); s2 = ocp.stage(t, t0=2, T=4)
+            ocp.solver('ipopt', {"print_time": False, "ipopt": {"print_level": 0}})
+            for st_, t0_, T_ in ((s1, 0.0, 2.0), (s2, 2.0, 4.0)):
+                ts, xs = quiet(st_.sample, x, grid='control'); _, us = quiet(st_.sample, u, grid='control-')
+                opti = ocp._method.opti
+                tv = np.array(opti.debug.value(ts, opti.initial())).reshape(-1)
+                xv = np.array(opti.debug.value(xs, opti.initial())).reshape(-1); uv = np.array(opti.debug.value(us, opti.initial())).reshape(-1)
+                want_t = [t0_ + T_ * k / 2 for k in range(3)]
+                ok = np.allclose(tv, want_t) and np.allclose(xv, [3 * a + 1 for a in want_t]) and np.allclose(uv, [a - t0_ for a in want_t[:-1]])
+                res.append(('C12.g:clone_guess:' + tag, 'ok' if ok else 'mismatch', 'clone at t0=%g: times %s, x starts %s, u starts %s' % (t0_, tv.tolist(), xv.tolist(), uv.tolist())))
+        except Exception as e:
+            res.append(('C12.g:clone_guess:' + tag, 'error', '%s: %s' % (type(e).__name__, (str(e).splitlines() or [''])[-1][:200])))
+    return res
